@@ -170,9 +170,68 @@ def pair_case(op, T, prec, isa, wxyz=False):
     return R.Case(cname, [kp, ks], judge)
 
 
+def sign_xor_to_select(t):
+    """{x[0 .. w-2], c ^ x[w-1]}  ->  select(c, -x, x): the intrinsic code flips the sign bit of a float under a mask where the pure code selects between x and -x"""
+    memo = {}
+    for x in tm.walk(t):
+        if not any(isinstance(a, tm.T) for a in x.args):
+            memo[x] = x
+            continue
+        na = tuple(memo[a] if isinstance(a, tm.T) else a for a in x.args)
+        y = x if all(p is q for p, q in zip(na, x.args)) else tm.make(x.op, na, x.w)
+        if y.op == 'concat' and len(y.args) == 2 and y.args[1].w == 1 and y.args[1].op == 'xor' and y.args[0].op == 'slice' and y.args[0].args[1] == 0:
+            base = y.args[0].args[0]
+            if base.w == y.w:
+                sb = tm.slice_(base, y.w - 1, 1)
+                for i in (0, 1):
+                    if y.args[1].args[i] is sb:
+                        y = tm.select(y.args[1].args[1 - i], tm.fneg(base), base)
+                        break
+        memo[x] = y
+    return memo[t]
+
+
+def int_simplify(t):
+    """two sound rewrites of integer selections: select(x == c, T, E) -> E when E with x := c folds to T (the special case is redundant), and
+    select(x < 0, 0 - x, x) -> |x|"""
+    memo = {}
+    for x in tm.walk(t):
+        if not any(isinstance(a, tm.T) for a in x.args):
+            memo[x] = x
+            continue
+        na = tuple(memo[a] if isinstance(a, tm.T) else a for a in x.args)
+        y = x if all(p is q for p, q in zip(na, x.args)) else tm.make(x.op, na, x.w)
+        if y.op == 'select':
+            c, a, b = y.args
+            if c.op == 'slice' and c.w == 1 and c.args[1] == c.args[0].w - 1 and b is c.args[0] and a.op == 'sub' and a.args[1] is b and a.args[0].op == 'const' and a.args[0].args[0] == 0:
+                y = tm.mk('iabs', (b,), b.w)
+        if y.op == 'select':
+            c, a, b = y.args
+            if c.op == 'icmp' and c.args[0] == 'eq':
+                for xi, ki in ((c.args[1], c.args[2]), (c.args[2], c.args[1])):
+                    if ki.op == 'const' and xi.op != 'const':
+                        b0 = tm.substitute(b, {xi: ki})
+                        if b0.op == 'iabs' and b0.args[0].op == 'const':
+                            v = tm.sval(b0.args[0])
+                            b0 = tm.const(b0.w, abs(v) & ((1 << b0.w) - 1))
+                        if b0 is a:
+                            y = b
+                            break
+        memo[x] = y
+    return memo[t]
+
+
 def compare_builds(t_p, t_s, cls, rty, pc):
     if t_p is t_s:
         return R.PROVED, 'identical term in both builds'
+    if not rty.isfloat and rty.T != 'bool':
+        t_s, t_p = int_simplify(t_s), int_simplify(t_p)
+        if t_p is t_s:
+            return R.PROVED, 'identical term in both builds (after removing a redundant special case / reading select(x < 0, -x, x) as |x|)'
+    if rty.isfloat:
+        t_s = sign_xor_to_select(t_s)
+        if t_p is t_s:
+            return R.PROVED, 'identical term in both builds (sign flip under a mask read as a selection between x and -x)'
     if rty.T == 'bool' or not rty.isfloat:
         w = rty.elem * 8
         if rty.T == 'bool':
@@ -205,7 +264,66 @@ def compare_builds(t_p, t_s, cls, rty, pc):
     st, detail = S.compare(t_s, t_p, pc=pc, nan=False)
     if st == R.PROVED:
         return st, ('class %s: ' % cls) + detail.replace('the definition', 'the pure build')
+    if st == R.UNDECIDED and cls == 'A':
+        # class A promises identical values: an undecided pair is refuted when the two derived terms, evaluated exactly, give different numbers at an input
+        # (ties, integers at and beyond 2^23, small and large magnitudes; -0 and +0 count as the same number, NaN inputs / results are not compared)
+        wit = class_a_witness(t_p, t_s, rty.elem * 8)
+        if wit:
+            return R.REFUTED, 'the builds return different values for %s: pure %s, intrinsic %s  (%s)' % (wit[0], wit[1], wit[2], detail.replace('the definition', 'the pure build')[:200])
+    if st == R.UNDECIDED and cls == 'B':
+        wit = class_b_witness(t_p, t_s, rty.elem * 8)
+        if wit:
+            return R.REFUTED, 'the builds take different decisions for %s: pure %s, intrinsic %s  (%s)' % (wit[0], wit[1], wit[2], detail.replace('the definition', 'the pure build')[:200])
     return st, detail.replace('the definition', 'the pure build').replace('definition', 'pure')
+
+
+_B_POOL = [0.6, -0.8, 0.5, 0.25, 1.0, -1.0, 2.0, 0.75, -0.5, 0.0, 1.5, -0.25, 3.0, 0.125]
+
+
+def class_b_witness(t_p, t_s, w):
+    """class B tolerates a few units of rounding, never a different branch: a witness is an input of moderate magnitude at which one build returns exactly 0 or
+    NaN and the other a finite value of magnitude >= 2^-10 (inputs and intermediate terms are O(1), a few units of rounding are ~1e-6)"""
+    from laneflow import ceval as CE
+    import random
+    ins = sorted({x for t in (t_p, t_s) for x in tm.walk(t) if x.op == 'in'}, key=lambda q: q.id)
+    if not ins or any(x.w != w for x in ins):
+        return None
+    rng = random.Random(3)
+    for trial in range(80):
+        vals = [rng.choice(_B_POOL) for _ in ins]
+        env = {x: CE.f2b(w, v) for x, v in zip(ins, vals)}
+        try:
+            a, b = CE.b2f(w, CE.evaluate(t_p, env)), CE.b2f(w, CE.evaluate(t_s, env))
+        except CE.NoValue:
+            continue
+        for u, v in ((a, b), (b, a)):
+            if (u == 0 or u != u) and v == v and abs(v) >= 2.0 ** -10 and abs(v) < 2.0 ** 20:
+                return ', '.join('%s = %r' % (tm.show(x), q) for x, q in zip(ins, vals)), repr(a), repr(b)
+    return None
+
+
+_A_VALUES = [2.5, -2.5, 0.5, -0.5, 1.5, 3.5, -0.3, 0.3, 0.75, -7.25, 8388609.0, -8388609.0, 8388607.5, 16777215.0, 4194304.5, 1e10, -1e10, 1.0, 0.0, 123.456, 4503599627370497.0, 2251799813685248.5]
+
+
+def class_a_witness(t_p, t_s, w):
+    from laneflow import ceval as CE
+    import itertools
+    import math
+    ins = sorted({x for t in (t_p, t_s) for x in tm.walk(t) if x.op == 'in'}, key=lambda q: q.id)
+    if not ins or len(ins) > 2 or any(x.w != w for x in ins):
+        return None
+    vals = [v for v in _A_VALUES if CE.b2f(w, CE.f2b(w, v)) == v]
+    for combo in itertools.islice(itertools.product(vals, repeat=len(ins)), 600):
+        env = {x: CE.f2b(w, v) for x, v in zip(ins, combo)}
+        try:
+            a, b = CE.b2f(w, CE.evaluate(t_p, env)), CE.b2f(w, CE.evaluate(t_s, env))
+        except CE.NoValue:
+            continue
+        if a != a or b != b:
+            continue
+        if a != b:
+            return ', '.join('%s = %r' % (tm.show(x), v) for x, v in zip(ins, combo)), repr(a), repr(b)
+    return None
 
 
 def cases(tier):
